@@ -213,7 +213,13 @@ theorem mark_preserves (hasDb : Bool) (s : Store) :
         · trivial
     | routing h ch w d tc =>
       cases key with
-      | nil => exact hm
+      | nil =>
+        simp only [markToCollect]
+        cases q with
+        | nil => simp [Marked]
+        | cons q0 qs =>
+          simp only [Marked] at hm ⊢
+          exact ⟨trivial, hm.2⟩
       | cons k ks =>
         cases q with
         | nil =>
@@ -291,38 +297,52 @@ def markedRoot (t : WT) (keys : List (List Nib)) : Option WN :=
 section Root
 variable (H : Bytes → Bytes)
 
-/-- `markedRoot` is the first half of `getPath` -/
-theorem getPath_of_markedRoot (t : WT) (keys : List (List Nib)) (n' : WN) (h : markedRoot t keys = some n') :
+/-- `markedRoot` is the first half of `getPathSeq`, `getPath` with the sequential strategy -/
+theorem getPathSeq_of_markedRoot (t : WT) (keys : List (List Nib)) (n' : WN) (h : markedRoot t keys = some n') :
+    getPathSeq H t keys =
+      ({ t with root := (collectNodes H n').1 }, .ok (Cbor.encTrie (collectNodes H n').2)) := by
+  unfold markedRoot at h
+  have e : getPathSeq H t keys = (match loadRoot t with
+    | .err e => (t, .err e)
+    | .ok root =>
+      let m := markAll t.hasDb t.store root keys
+      match m.err with
+      | some .kvNotFound => ({ t with root := m.node }, .err .notFound)
+      | some e => ({ t with root := m.node }, .err e)
+      | none =>
+        let c := collectNodes H m.node
+        ({ t with root := c.1 }, .ok (Cbor.encTrie c.2))) := rfl
+  rw [e]
+  cases hl : loadRoot t with
+  | err e => rw [hl] at h; cases h
+  | ok root =>
+    rw [hl] at h
+    simp only at h ⊢
+    cases hm : (markAll t.hasDb t.store root keys).err with
+    | some e => rw [hm] at h; cases h
+    | none =>
+      rw [hm] at h
+      simp only [Option.some.injEq] at h
+      subst h
+      rfl
+
+/-- `markedRoot` is the first half of `getPath`, for non-empty keys (the per-branch parallel strategy panics on an empty
+key, the sequential one marks the root) -/
+theorem getPath_of_markedRoot (t : WT) (keys : List (List Nib)) (n' : WN) (hne : ∀ k ∈ keys, k ≠ [])
+    (h : markedRoot t keys = some n') :
     getPath H t keys =
       ({ t with root := (collectNodes H n').1 }, .ok (Cbor.encTrie (collectNodes H n').2)) := by
   -- the strategy `getPath` takes is irrelevant for a successful marking (`getPath_strategy_irrelevant`)
-  have hseq : getPathSeq H t keys =
+  have hseq := getPathSeq_of_markedRoot H t keys n' h
+  rw [(getPath_strategy_irrelevant H t keys hne).2.1 _ (by rw [hseq]), hseq]
+
+/-- the same for any keys when the loaded root is no branch: `getPath` takes the sequential strategy then -/
+theorem getPath_of_markedRoot_of_not_routing (t : WT) (keys : List (List Nib)) (n' : WN)
+    (hnr : ∀ root, loadRoot t = .ok root → root.isRouting = false) (h : markedRoot t keys = some n') :
+    getPath H t keys =
       ({ t with root := (collectNodes H n').1 }, .ok (Cbor.encTrie (collectNodes H n').2)) := by
-    unfold markedRoot at h
-    have e : getPathSeq H t keys = (match loadRoot t with
-      | .err e => (t, .err e)
-      | .ok root =>
-        let m := markAll t.hasDb t.store root keys
-        match m.err with
-        | some .kvNotFound => ({ t with root := m.node }, .err .notFound)
-        | some e => ({ t with root := m.node }, .err e)
-        | none =>
-          let c := collectNodes H m.node
-          ({ t with root := c.1 }, .ok (Cbor.encTrie c.2))) := rfl
-    rw [e]
-    cases hl : loadRoot t with
-    | err e => rw [hl] at h; cases h
-    | ok root =>
-      rw [hl] at h
-      simp only at h ⊢
-      cases hm : (markAll t.hasDb t.store root keys).err with
-      | some e => rw [hm] at h; cases h
-      | none =>
-        rw [hm] at h
-        simp only [Option.some.injEq] at h
-        subst h
-        rfl
-  rw [(getPath_strategy_irrelevant H t keys).2.1 _ (by rw [hseq]), hseq]
+  rw [getPath_eq_getPathSeq_of_not_routing H t keys hnr]
+  exact getPathSeq_of_markedRoot H t keys n' h
 
 variable {H}
 
@@ -361,7 +381,20 @@ theorem getPath_marks (hlen : ∀ x, (H x).length = 32) (t : WT) {ts : PT} {m : 
   obtain ⟨g1, g2, g3, g4, g5, g6, g7, g8, g9, g10, g11⟩ := markAll_ok (s := t.store) hlen hu hok keys root hlk r1 r2 r3
   have hmr : markedRoot t keys = some (markAll true t.store root keys).node := by
     simp only [markedRoot, hl, hdb, g1]
-  refine ⟨_, hmr, getPath_of_markedRoot H t keys _ hmr, g2, g3, g4, ?_, g5.trans r5, g11⟩
+  have hgp : getPath H t keys = ({ t with root := (collectNodes H (markAll true t.store root keys).node).1 },
+      .ok (Cbor.encTrie (collectNodes H (markAll true t.store root keys).node).2)) := by
+    cases m with
+    | succ m' =>
+      exact getPath_of_markedRoot H t keys _ (fun k hk e => by have := hlk k hk; rw [e] at this; cases this) hmr
+    | zero =>
+      -- keys of length 0: a uniform spec tree of depth 0 is no branch, `getPath` walks sequentially
+      refine getPath_of_markedRoot_of_not_routing H t keys _ (fun root' hl' => ?_) hmr
+      rw [hl] at hl'
+      cases hl'
+      cases r1 with
+      | routing h ch w d tc f hch hroute hw hcl => simp [Uniform] at hu
+      | _ => rfl
+  refine ⟨_, hmr, hgp, g2, g3, g4, ?_, g5.trans r5, g11⟩
   cases keys with
   | nil => exact r4
   | cons k ks => exact g9 (by simp)
